@@ -262,6 +262,7 @@ def gen_case(rng, stream, big=False):
     case["pre"] = gen_pre(rng, case) if rng.random() < 0.35 else []
     case["input"] = "file" if rng.random() < 0.3 else "dict"
     case["cells"] = [gen_cell(rng, t) for _, _, t in case["rows"]] if rng.random() < 0.5 else None
+    case["loose_first"] = rng.random() < 0.4
     return case
 
 
@@ -347,6 +348,21 @@ def colmean_safe(raw, M, x, y):
     e1 = sum(M[i][x] for i in range(n)) / n
     e2 = sum(M[i][y] for i in range(n)) / n
     return (s1 <= s2) == (e1 <= e2)
+
+
+def derive_ids(wl, source, case):
+    """add_cognate_ids strict and loose on one object, in either order."""
+    def strict():
+        if "idtype" in case.get("omit", []):
+            wl.add_cognate_ids(source, "strictid")
+        else:
+            wl.add_cognate_ids(source, "strictid", idtype="strict")
+    if case.get("loose_first"):
+        wl.add_cognate_ids(source, "looseid", idtype="loose")
+        strict()
+    else:
+        strict()
+        wl.add_cognate_ids(source, "looseid", idtype="loose")
 
 
 def load_wordlist(case, columns, rows, subdir="tmp-C16"):
@@ -540,11 +556,7 @@ def run_impl(case):
             res.update(order=[], strict=[], loose=[])
             return res
         pid = main["col"]
-        if "idtype" in case.get("omit", []):
-            wl.add_cognate_ids(pid, "strictid")
-        else:
-            wl.add_cognate_ids(pid, "strictid", idtype="strict")
-        wl.add_cognate_ids(pid, "looseid", idtype="loose")
+        derive_ids(wl, pid, case)
         res["order"] = [int(k) for k in wl]
         res["strict"] = [int(wl[k, "strictid"]) for k in wl]
         res["loose"] = [[int(wl[k, "looseid"]) for k, _ in ws] for ws in view]
@@ -792,7 +804,7 @@ def d_gen_case(rng, big=False):
         rows.append(("L0", "c0", [1]))
     rng.shuffle(rows)
     case = {"stream": "derive", "rows": rows, "omit": ["idtype"] if rng.random() < 0.3 else [],
-            "input": "file" if rng.random() < 0.5 else "dict"}
+            "input": "file" if rng.random() < 0.5 else "dict", "loose_first": rng.random() < 0.4}
     if case["input"] == "file":
         case["column"] = rng.choice(SRC_COLUMNS)
         case["header"] = rng.choice(SRC_ALIASES[case["column"]])
@@ -825,11 +837,7 @@ def d_run_impl(case):
             if not (isinstance(cell, list) and len(cell) == len(ids)
                     and all(isinstance(x, int) and x == y for x, y in zip(cell, ids))):
                 loaded_ok = False
-        if "idtype" in case.get("omit", []):
-            wl.add_cognate_ids(col, "strictid")
-        else:
-            wl.add_cognate_ids(col, "strictid", idtype="strict")
-        wl.add_cognate_ids(col, "looseid", idtype="loose")
+        derive_ids(wl, col, case)
         src, loose = [], []
         for c in wl.rows:
             ks = wl.get_list(row=c, flat=True)
